@@ -6,19 +6,6 @@ From Coq Require Import List Arith NArith Bool Lia.
 From PV Require Import Model.Dedup Model.LogSync Proofs.LogSyncC20 Proofs.LogSyncScript.
 Import ListNotations.
 
-Definition lookup2 (h : heights) (a l : N) : option N :=
-  match lookupN a h with None => None | Some ls => lookupN l ls end.
-
-Definition above (rh : option N) (s : N) : bool :=
-  match rh with None => true | Some x => N.ltb x s end.
-
-(** The rows of log [(a, l)] the peer (who announced [h]) is missing. *)
-Definition missing_rows (r : replica) (h : heights) (a l : N) : list row :=
-  filter (fun w => above (lookup2 h a l) (r_seq w)) (rows_of r (a, l)).
-
-Definition expected_ops (r : replica) (logs : list (N * list N)) (h : heights) : list (N * N * row) :=
-  flat_map (fun al => flat_map (fun l => map (fun w => (fst al, l, w)) (missing_rows r h (fst al) l)) (snd al)) logs.
-
 Definition pos_sizes (r : replica) : Prop :=
   forall k w, In w (rows_of r k) -> (0 < r_size w)%N.
 
@@ -209,13 +196,6 @@ Proof.
 Qed.
 
 (** * Convergence of the heights after ingesting what was received *)
-Definition omax (x y : option N) : option N :=
-  match x, y with
-  | None, _ => y
-  | _, None => x
-  | Some a, Some b => Some (N.max a b)
-  end.
-
 Lemma keyb_eq k1 k2 : keyb k1 k2 = true <-> k1 = k2.
 Proof.
   destruct k1 as [a1 l1], k2 as [a2 l2]. unfold keyb. cbn [fst snd].
